@@ -86,7 +86,7 @@ static int setup_input(pipe_type *pipe, const uint8_t *data, size_t size)
   ENS("C02/setup_input.no_input_no_effect", IMPLIES(data == NULL, RV == 0 && g.e.os_calls == OLD(g.e.os_calls) && FD_LEDGER_UNCHANGED))
   ENS("C02/setup_input.all_bytes_written_in_order", IMPLIES(data != NULL && RV == 0, g.stream_pos == size))
   ENS("C02/setup_input.written_to_stdin_pipe", IMPLIES(data != NULL && g.stream_pos > 0, g.in_fd == OLD(*pipe)))
-  ENS("C02+C09+C14/setup_input.stdin_closed_after_input", IMPLIES(data != NULL && RV == 0, *pipe == -1 && g.fds.open == (OLD(g.fds.open) & ~MASK_OF(OLD(*pipe))) && g.fds.lib == (OLD(g.fds.lib) & ~MASK_OF(OLD(*pipe)))))
+  ENS("C02+INV/setup_input.stdin_closed_after_input", IMPLIES(data != NULL && RV == 0, *pipe == -1 && g.fds.open == (OLD(g.fds.open) & ~MASK_OF(OLD(*pipe))) && g.fds.lib == (OLD(g.fds.lib) & ~MASK_OF(OLD(*pipe)))))
   ENS("C05/setup_input.failure_leaves_pipe_to_caller", IMPLIES(data != NULL && RV != 0, *pipe == OLD(*pipe) && FD_LEDGER_UNCHANGED))
   ENS("C17/setup_input.never_blocks", g.may_block == OLD(g.may_block))
   ENS("C04/setup_input.success_has_no_failed_call", IMPLIES(RV == 0, g.e.faults == OLD(g.e.faults)))
